@@ -28,4 +28,36 @@ CHECKS = {
         "note": COMMON_NOTE + "np.linalg.eigh is a parameter of the model (its eigenpairs are passed as data; orthonormality/eigen-equation residuals "
                 "are checked by the oracle); dtype/read-only/fresh-copy are observed tags; np.cov, libm sin/cos/acos in the Float run are not verified.",
     },
+    "C01": {
+        "text": "14 theorems over every linearly ordered field about the per-face kernel: the translated constants/tables (tol=1e-8, sign convention, %3 offsets, "
+                "quads_to_tris columns, case predicates, clamp expression) are what the model uses; the complete 27-pattern case table (kept / dropped / quad / triangle); "
+                "every output corner is a convex combination of its source face's corners (for every input); no output corner of a selected face is behind the plane by "
+                "more than tol, new corners have offset in [0,tol]; each output triangle's area vector is a non-negative multiple of the face's and the multiples sum to <= 1; "
+                "pointwise tiling: the cut triangle / the two quad triangles are exactly {x in face | capped offset >= 0}, hence {d>tol} within outputs within {d>=-tol}, with equality "
+                "to {d>=0} when on-corners are not in front. C02_mesh_lift carries these to the returned arrays. Model tied to the code by correspondence of assembly and kernel "
+                "(exact rationals + doubles), incl. the exhaustive 343 corner-offset patterns.",
+        "note": COMMON_NOTE + "np.einsum/fancy indexing/np.append/np.roll are modelled as list functions. Offsets within 1e-3*tol of the +-1e-8 threshold are not generated.",
+    },
+    "C02": {
+        "text": "14 theorems: the unique_bincount renumbering is correct for every valid indexed mesh (indices valid, no orphans, positions preserved, increasing old index); "
+                "the assembly sliceMesh (all three return paths) returns, paired with its face mapping, exactly the kernel's triangles of the kept faces, then quads, then triangles, "
+                "each tagged with its source face (mesh lift: induction over the face list, appended vertex pairs, renumbering); provenance and completeness; empty inputs; "
+                "idempotence of re-slicing; the output is a function of the positional faces only (vertex numbering independence) and permuting faces permutes the output. "
+                "Complementarity with the flipped plane is corr-only (exact area comparison in the oracle) - partial. dtypes are observed tags.",
+        "note": COMMON_NOTE + "np.bincount/cumsum/where modelled as list functions; complementarity clause and dtypes rest on the correspondence/oracle only.",
+    },
+    "C06": {
+        "text": "37 theorems (all in full, incl. the code-shaped runs/vsplit slicer = span-shaped slicer = declarative unique-run spec, cyclic for closed polylines via the roll+append "
+                "reduction, for every vertex list over every ordered field): result = entry ++ run ++ exit with on-plane neighbour or strict-interior crossing, interior vertices are an "
+                "infix of the input, no row behind the plane, rows finite, result open, ValueError exactly when no unique run exists. Tie: exhaustive enumeration of all front/on/behind "
+                "sign sequences (len 0..6 quick, 0..9 thorough, open and closed) at exact rationals + float stream.",
+        "note": COMMON_NOTE + "np.roll/vsplit/nan_to_num modelled as list functions with explicit branches.",
+    },
+    "C15": {
+        "text": "56 theorems (all in full): translated tables/constants (quad picks, edge columns, cross rows, searchsorted side, reflect test, seed) equal the model's; normals = cross product, "
+                "cyclic/translation invariance, negation under swap; area = half norm; barycentric weights sum to 1 and reconstruct the orthogonal projection (guard branch separately); "
+                "containment iff all weights >= 0; sampling with the RNG draws as data: count, inside the named triangle, choice interval [cum_{i-1}, cum_i), never a zero-weight face for "
+                "every draw in [0,1), determinism; quads_to_tris winding and edges_of_faces once-each by decide on generated tables. Tie: lattice/float/sampling streams with cloned generators.",
+        "note": COMMON_NOTE + "np.searchsorted modelled as 'number of leading entries <= x' on non-decreasing cumulative weights; rng.random values are passed to the model as data.",
+    },
 }
